@@ -28,7 +28,8 @@ ASSUMPTIONS = [
 REQUIRED = ['gen', 'lib:pk', 'lib:koch', 'lib:koch_r', 'lib:erlotinib', 'sens', 'reduced', 'renamed', 'tied_times',
             'intermediate_output', 'order_differs', 'model_order_differs', 'derived_const', 'refix', 'refix:same_count',
             'admin:indirect', 'rename_then_admin', 'dosed:sens', 'dosed:global_state', 'negative_initial_value', 'regimen_through_reduced_model', 'regimen_replaced:zero_dose',
-            'admin:indirect:model_has_dose_compartment:dosed']
+            'admin:indirect:model_has_dose_compartment:dosed', 'lib:second_request',
+            'admin:direct_after_dose_compartment_output']
 LIBS = ['pk', 'koch', 'koch_r', 'erlotinib']
 
 
@@ -127,6 +128,8 @@ def classify(spec):
     labs = []
     if spec['src'] == 'lib':
         labs.append('lib:' + spec['lib'])
+        if len(spec['times']) % 2 == 0:
+            labs.append('lib:second_request')
     else:
         labs.append('gen')
         ms = spec['ms']
@@ -233,12 +236,24 @@ def lib_reference(lib, theta, times):
     return np.array([[res[tt][o] for tt in times] for o in range(len(res[uniq[0]]))], dtype=dt)
 
 
-def build_lib(lib):
+def build_lib(lib, second_request=False):
+    """A library model. second_request: the SAME library object was asked for this model before, and that first model
+    was configured (route of administration with a regimen, display names, outputs) before the second was requested."""
     import chi.library
     L = chi.library.ModelLibrary()
-    return {'pk': L.one_compartment_pk_model, 'koch': L.tumour_growth_inhibition_model_koch,
+    make = {'pk': L.one_compartment_pk_model, 'koch': L.tumour_growth_inhibition_model_koch,
             'koch_r': L.tumour_growth_inhibition_model_koch_reparametrised,
-            'erlotinib': L.erlotinib_tumour_growth_inhibition_model}[lib]()
+            'erlotinib': L.erlotinib_tumour_growth_inhibition_model}[lib]
+    if second_request:
+        first = make()
+        if lib in ('pk', 'erlotinib'):
+            first.set_administration('central', direct=(lib == 'erlotinib'))
+            first.set_dosing_regimen(dose=2.0, start=0.1, duration=0.2, period=0.5)
+        first.set_parameter_names({first.parameters()[0]: 'first model, parameter 1'})
+        first.set_outputs([first.outputs()[0]])
+        first.set_output_names({first.outputs()[0]: 'first model, output 1'})
+        first.simulate(np.array([0.5 + 0.1 * k for k in range(first.n_parameters())]), np.array([0.5, 1.0]))
+    return make()
 
 
 def _cgrad_outputs(f, theta):
@@ -262,7 +277,7 @@ def check(case):
 
     if s['src'] == 'lib':
         with case.clause('construct'):
-            M = build_lib(s['lib'])
+            M = build_lib(s['lib'], second_request=len(s['times']) % 2 == 0)
         if case.fails:
             return
         pn, on = LIB_NAMES[s['lib']]
@@ -312,6 +327,18 @@ def check(case):
             if s['rename'] and admin['rename_first']:
                 pmap_first = {names[i]: 'renamed parameter no. %d (a long display name)' % i for i in s['rename']['params']}
                 M.set_parameter_names(pmap_first)
+            if admin['direct'] and admin['comp'] < len(ms['comps']) and (len(times) + len(s['theta'])) % 2 == 0:
+                # the route was indirect at first, with the dose compartment as the only output (and the outputs were
+                # looked at); the switch to the direct route removes that compartment: the outputs are the states again
+                comp = ms['comps'][admin['comp']]
+                M.set_administration(comp['id'], amount_var='%s_amount' % comp['sid'], direct=False)
+                M.set_outputs([sbmlgen.depot(ms) + '.drug_amount'])
+                case.equal(M.outputs(), [sbmlgen.depot(ms) + '.drug_amount'], 'outputs with only the dose compartment selected')
+                M.set_administration(comp['id'], amount_var='%s_amount' % comp['sid'], direct=True)
+                case.equal(sorted(M.outputs()), sorted(sq), 'outputs after the selected dose compartment was removed by a '
+                           'switch to the direct route')
+                case.equal(M.n_outputs(), len(sq), 'n_outputs after the selected dose compartment was removed')
+                case.labels.append('admin:direct_after_dose_compartment_output')
             # (compartments first, then the states of 'global': variables declared by a rate rule, without a unit)
             if admin['comp'] < len(ms['comps']):
                 comp = ms['comps'][admin['comp']]
